@@ -8,7 +8,7 @@ as an allocation pattern; the public calls read and write through ids).  `h` is 
 clone lives in a region that did not exist before (all its objects are new).
 
 `WellFormed h s`: the original only reaches its own objects (`Closed`), its `persons` is the population
-listed for the person entity and has no `members`.  `MemoryBacked h s`: no holder of the original has
+listed for the person entity, has no `members` and is bound to `s`.  `MemoryBacked h s`: no holder of the original has
 an on-disk storage and no temporary directory exists yet.  The example (`exH`, `exS`, `exOps` in
 `Lemmas/HeapRun.lean`) is the history of the regression corpus.
 -/
@@ -58,13 +58,18 @@ example : ∃ c h', cloneSim exS false exH = (.ok c, h') ∧ Closed exS.reg exH 
 
 /-- Immediately after cloning: the original is untouched (every region that existed is as it was), and
 the clone holds the same values (`get_array` of every variable and period), the same known periods and
-the same entity structure (counts, ids, memberships, which variables have a holder). -/
+the same entity structure (counts, ids, memberships, the role of every member, which variables have a
+holder); every role-dependent read — `nb_persons(role)` of a group population, `persons.has_role(role)`,
+which goes back through the person population's own simulation — gives on the clone what it gives on the
+original. -/
 theorem C13_clone_equal_initially (sys : Sys) (h : Heap) (s : Id) (tr : Bool) (h' : Heap) (c : Id)
     (hwf : WellFormed h s) (hc : cloneSim s tr h = (.ok c, h')) :
     (∀ r, r < h.length → h'[r]? = h[r]?)
     ∧ (∀ v p, (readValue sys c v p h').1 = (readValue sys s v p h).1)
     ∧ (∀ v, (readKnown sys c v h').1 = (readKnown sys s v h).1)
-    ∧ (∀ ent, (readStructure c ent h').1 = (readStructure s ent h).1) := by
+    ∧ (∀ ent, (readStructure c ent h').1 = (readStructure s ent h).1)
+    ∧ (∀ ent role, (roleCount c ent role h').1 = (roleCount s ent role h).1)
+    ∧ (∀ ent role, (personsHaveRole c ent role h').1 = (personsHaveRole s ent role h).1) := by
   have sc := cloneSim_spec hwf.closed hc
   have hreg : h[s.reg]? = h'[s.reg]? := (sc.others s.reg (Nat.ne_of_lt sc.lt)).symm
   obtain ⟨so, so', hs, hs', look⟩ := sc.popLookup hwf.listed
@@ -74,6 +79,7 @@ theorem C13_clone_equal_initially (sys : Sys) (h : Heap) (s : Id) (tr : Bool) (h
       PopPair c.reg c p0 h h' (k, pid) (k, pid') →
       ∃ po po', h.get? pid = some (.pop po) ∧ h'.get? pid' = some (.pop po')
         ∧ po'.count = po.count ∧ po'.ids = po.ids ∧ po'.membersEntityId = po.membersEntityId
+        ∧ po'.membersRole = po.membersRole ∧ po'.sim = c
         ∧ po'.holders.map (fun e => e.1) = po.holders.map (fun e => e.1)
         ∧ ((alGet po.holders v = none ∧ alGet po'.holders v = none)
           ∨ ∃ hid hid' ho ho', alGet po.holders v = some hid ∧ alGet po'.holders v = some hid'
@@ -84,12 +90,13 @@ theorem C13_clone_equal_initially (sys : Sys) (h : Heap) (s : Id) (tr : Bool) (h
     obtain ⟨_, po, hs5, members, b1, b2, b3, b4, b5, b6⟩ := hp
     have hpid : pid.reg = s.reg := hin.2.1 _ (alGet_mem hk)
     have hpo : InReg s.reg (.pop po) := hwf.closed.get hpid b1
-    refine ⟨po, _, b1, b5, rfl, rfl, rfl, b6.keys (fun e e' hp => hp.1), ?_⟩
+    refine ⟨po, _, b1, b5, rfl, rfl, rfl, rfl, rfl, b6.keys (fun e e' hp => hp.1), ?_⟩
     rcases alGet_rel₂ b6 (fun e e' hp => hp.1) v with hn | ⟨hid, hid', g1, g2, g3⟩
     · exact Or.inl hn
     · obtain ⟨ho, ho', d1, d2, d3, d4⟩ := holderFind_pair g3 hwf.closed (hpo.2.1 _ (alGet_mem g1)) hreg
       exact Or.inr ⟨hid, hid', ho, ho', g1, g2, d1, d2, d3, d4⟩
-  refine ⟨fun r hr => sc.others r (Nat.ne_of_lt hr), fun v p => ?_, fun v => ?_, fun ent => ?_⟩
+  refine ⟨fun r hr => sc.others r (Nat.ne_of_lt hr), fun v p => ?_, fun v => ?_, fun ent => ?_, fun ent role => ?_,
+    fun ent role => ?_⟩
   · unfold readValue varDecl
     cases sys[v]? with
     | none => rfl
@@ -100,7 +107,7 @@ theorem C13_clone_equal_initially (sys : Sys) (h : Heap) (s : Id) (tr : Bool) (h
       · rw [n1, n2]; rfl
       · rw [l1, l2]
         simp only [ofOption_some, pure_bind']
-        obtain ⟨po, po', q1, q2, _, _, _, _, q7⟩ := holder v l1 pp
+        obtain ⟨po, po', q1, q2, _, _, _, _, _, _, q7⟩ := holder v l1 pp
         rw [bind_of_ok (rdPop_eq q2), bind_of_ok (rdPop_eq q1)]
         rcases q7 with ⟨m1, m2⟩ | ⟨hid, hid', ho, ho', m1, m2, m3, m4, m5, _⟩
         · rw [m1, m2]; rfl
@@ -118,7 +125,7 @@ theorem C13_clone_equal_initially (sys : Sys) (h : Heap) (s : Id) (tr : Bool) (h
       · rw [n1, n2]; rfl
       · rw [l1, l2]
         simp only [ofOption_some, pure_bind']
-        obtain ⟨po, po', q1, q2, _, _, _, _, q7⟩ := holder v l1 pp
+        obtain ⟨po, po', q1, q2, _, _, _, _, _, _, q7⟩ := holder v l1 pp
         rw [bind_of_ok (rdPop_eq q2), bind_of_ok (rdPop_eq q1)]
         rcases q7 with ⟨m1, m2⟩ | ⟨hid, hid', ho, ho', m1, m2, m3, m4, _, m6⟩
         · rw [m1, m2]; rfl
@@ -132,12 +139,49 @@ theorem C13_clone_equal_initially (sys : Sys) (h : Heap) (s : Id) (tr : Bool) (h
     · rw [n1, n2]; rfl
     · rw [l1, l2]
       simp only [ofOption_some, pure_bind']
-      obtain ⟨po, po', q1, q2, q3, q4, q5, q6, _⟩ := holder 0 l1 pp
+      obtain ⟨po, po', q1, q2, q3, q4, q5, qr, _, q6, _⟩ := holder 0 l1 pp
       rw [bind_of_ok (rdPop_eq q2), bind_of_ok (rdPop_eq q1)]
-      simp only [pure_apply, q3, q4, q5, q6]
+      simp only [pure_apply, PopObj.roles, q3, q4, q5, q6, qr]
+  · unfold roleCount
+    rw [bind_of_ok (rdSim_eq hs'), bind_of_ok (rdSim_eq hs)]
+    rcases look ent with ⟨n1, n2⟩ | ⟨pid, pid', p0, l1, l2, pp⟩
+    · rw [n1, n2]; rfl
+    · rw [l1, l2]
+      simp only [ofOption_some, pure_bind']
+      obtain ⟨po, po', q1, q2, q3, _, q5, qr, _, _, _⟩ := holder 0 l1 pp
+      rw [bind_of_ok (rdPop_eq q2), bind_of_ok (rdPop_eq q1)]
+      simp only [pure_apply, PopObj.roles, q3, q5, qr]
+  · -- the persons of the clone go back to the clone, the persons of the original to the original
+    unfold personsHaveRole
+    rw [bind_of_ok (rdSim_eq hs'), bind_of_ok (rdSim_eq hs)]
+    rcases look 0 with ⟨n1, _⟩ | ⟨pid, pid', p0, l1, l2, pp⟩
+    · rw [hwf.listed so hs] at n1; cases n1
+    · have e1 : pid = so.persons := by rw [hwf.listed so hs] at l1; cases l1; rfl
+      have e2 : pid' = so'.persons := by
+        obtain ⟨so2, persons', groups', trc, inv, a1, a2, _⟩ := sc.ex
+        rw [hs'] at a2
+        cases a2
+        simp only [alGet, if_true] at l2
+        cases l2
+        rfl
+      subst e1 e2
+      obtain ⟨po, po', q1, q2, _, _, _, _, qs, _, _⟩ := holder 0 l1 pp
+      rw [bind_of_ok (rdPop_eq q2), bind_of_ok (rdPop_eq q1), qs]
+      have hback : po.sim = s := hwf.bound so po hs q1
+      rw [hback, bind_of_ok (rdSim_eq hs'), bind_of_ok (rdSim_eq hs)]
+      rcases look ent with ⟨n1, n2⟩ | ⟨gid, gid', g0, m1, m2, gp⟩
+      · rw [n1, n2]; rfl
+      · rw [m1, m2]
+        simp only [ofOption_some, pure_bind']
+        obtain ⟨go, go', r1, r2, _, _, r5, rr, _, _, _⟩ := holder 0 m1 gp
+        rw [bind_of_ok (rdPop_eq r2), bind_of_ok (rdPop_eq r1)]
+        simp only [pure_apply, PopObj.roles, r5, rr]
 
 example : WellFormed exH exS := WellFormed.ofB (by decide +kernel)
 example : (readValue exSys exC 1 exM1 exH').1 = .ok (some [5, 7, 9]) := by decide +kernel
+-- person 1 holds the second top-level role, person 2 the third one: the clone sees them where they are
+example : (roleCount exC 1 [2] exH').1 = .ok [1, 0] ∧ (roleCount exC 1 [3] exH').1 = .ok [0, 1]
+    ∧ (personsHaveRole exC 1 [2] exH').1 = .ok [false, true, false] := by decide +kernel
 
 /-- **Restricted to memory-backed simulations** (the full statement — for every simulation — is false of
 the code and of the model: `Holder.clone` copies `_disk_storage` by reference and both simulations write
@@ -191,6 +235,12 @@ theorem C13_noninterference (sys : Sys) (fuel : Nat) (h : Heap) (s : Id) (tr : B
     (observe s (runOps sys fuel s c ops h')).1 = (observe s (runSide sys fuel s (ops.filterMap (onSide .orig)) h')).1
     ∧ (observe c (runOps sys fuel s c ops h')).1 = (observe c (runSide sys fuel c (ops.filterMap (onSide .clone)) h')).1
 -/
+
+-- role-dependent formulas calculated after the clone, on both sides (person 1 holds `r1`, person 2 `r2`): the clone
+-- still sees the inputs 1, 2, 3, the original its new inputs 4, 4, 4
+example : (resultsOps exSys 40 exS exC .clone exOps exH')[1]? = some (.ok (.vec [2, 10]))
+    ∧ (resultsOps exSys 40 exS exC .orig exOps exH')[1]? = some (.ok (.vec [4, 10]))
+    ∧ (resultsOps exSys 40 exS exC .orig exOps exH')[2]? = some (.ok (.vec [0, 1, 0])) := by decide +kernel
 
 example : (observe exC (runOps exSys 40 exS exC exOps exH')).1
     ≠ (observe exS (runOps exSys 40 exS exC exOps exH')).1 := by decide +kernel
